@@ -88,7 +88,7 @@ int vstate_make(struct vstate *v, enum vtp tp, enum vst st, uint64_t seed,
             for (int i = 0; i < 50 && v->raw_cfd < 0; i++) {
                 vx_finish(&v->cl);
                 struct pollfd p = { .fd = v->raw_lfd, .events = POLLIN };
-                if (vs_real_poll(&p, 1, 5) > 0) { v->raw_cfd = accept(v->raw_lfd, NULL, NULL); if (v->raw_cfd >= 0) vs_mark_harness_fd(v->raw_cfd); }
+                if (vs_real_poll(&p, 1, 5) > 0) { v->raw_cfd = vnet_accept_peer(v->raw_lfd, vs_ledger_data_fd(v->cl.id), 20, NULL); if (v->raw_cfd >= 0) vs_mark_harness_fd(v->raw_cfd); }
             }
             if (v->raw_cfd < 0) { snprintf(why, why_cap, "raw peer saw no connection"); return -1; }
             for (int i = 0; i < 5; i++) vx_finish(&v->cl);
